@@ -1,5 +1,6 @@
 (* Scratch prototype: faithful model of internal/lex/lex.go over bytes, UTF-8 decoding as in Go *)
 From Coq Require Import List Ascii String NArith Bool Arith Lia.
+Require Export Tables.
 Import ListNotations.
 
 Definition bytes := list ascii.
@@ -48,11 +49,7 @@ Proof.
 Qed.
 
 (* ---------- tokens ---------- *)
-Inductive toktype :=
-| TErr | TLiteral | TQuoted | TRegexp
-| TEqual | TGreater | TLess | TColon | TPlus | TMinus | TTilde | TCarrot | TNot | TAnd | TOr | TRParen | TLParen
-| TLCurly | TRCurly | TTO | TLSquare | TRSquare
-| TEOF | TStart.
+(* toktype and the symbol table come from gen/Tables.v (generated from lex.go) *)
 Record token := { typ : toktype; val : bytes }.
 
 Record classes := { is_letter : N -> bool; is_digit : N -> bool }.
@@ -66,14 +63,9 @@ Definition is_wildcard (r : N) : bool := (r =? 42)%N || (r =? 63)%N.            
 Definition is_escape (r : N) : bool := (r =? 92)%N.                                            (* \ *)
 Definition is_space (r : N) : bool := (r =? 32)%N || (r =? 9)%N || (r =? 13)%N || (r =? 10)%N.
 
-Definition symbol (r : N) : option toktype :=
-  if (r =? 40)%N then Some TLParen else if (r =? 41)%N then Some TRParen
-  else if (r =? 91)%N then Some TLSquare else if (r =? 93)%N then Some TRSquare
-  else if (r =? 123)%N then Some TLCurly else if (r =? 125)%N then Some TRCurly
-  else if (r =? 58)%N then Some TColon else if (r =? 43)%N then Some TPlus
-  else if (r =? 61)%N then Some TEqual else if (r =? 62)%N then Some TGreater
-  else if (r =? 126)%N then Some TTilde else if (r =? 94)%N then Some TCarrot
-  else if (r =? 60)%N then Some TLess else None.
+Fixpoint assoc_N (r : N) (l : list (N * toktype)) : option toktype :=
+  match l with [] => None | (k, v) :: rest => if (r =? k)%N then Some v else assoc_N r rest end.
+Definition symbol (r : N) : option toktype := assoc_N r symbols.
 
 (* take w bytes from s onto acc (acc holds the token text reversed) *)
 Fixpoint take_onto (w : nat) (s acc : bytes) : bytes * bytes :=
